@@ -38,7 +38,11 @@ def check(repo, col, tier):
     # the matrix structure conservation / no-overshoot rest on (shared with C01): every off-diagonal -dt*g into a row has
     # +dt*g on that row's diagonal (zero row sum of the coupling part), branch-point rows sum to zero, and every level of
     # every cell is solved.
-    from . import c01_solver
+    from . import c01_solver, c10, c01
+    col.rule("R-C02-derived", "coupling conductances use the same geometry as area and capacitance", 1)
+    c10.derived_after_overrides(repo, col, "R-C02-derived")
+    col.rule("R-C02-layout", "every compartment's row is the one its neighbours' couplings point to (padded layout)", 8)
+    c01._layout(repo, col, "R-C02-layout")
     col.rule("R-C02-rowsum", "coupling part of the implicit matrices has zero row sums (contribution tables)", 10)
     col.rule("R-C02-schedule", "every level of every cell is part of the solve", 2)
     c01_solver._assembly_jaxley(repo, col, "R-C02-rowsum")
